@@ -469,3 +469,19 @@ package st
 //@   level: PA
 //@   opt: only=safe-idx
 //@   modifies *
+//@ func (*Gate).SendChecked
+//@   props: S01
+//@   level: PA
+//@   nosafe
+//@   opt: channels=quiet
+//@   requires g != nil
+//@   modifies *
+//@   ensures [closed-refuses] chanclosed(g.closed) ==> !result
+//@ func (*Gate).SendRacy
+//@   props: S01
+//@   level: PA
+//@   nosafe
+//@   opt: channels=quiet
+//@   requires g != nil
+//@   modifies *
+//@   ensures [must-fail-racy-select] chanclosed(g.closed) ==> !result
